@@ -126,6 +126,80 @@ pub mod verif {
         super::routines::insert_intersections(cmap, &edge_intersec, &dart_slices);
         res
     }
+
+    fn plain_vertex(v: &super::model::GeometryVertex) -> (u8, usize) {
+        use super::model::GeometryVertex;
+        match v {
+            GeometryVertex::Regular(i) => (0, *i),
+            GeometryVertex::PoI(i) => (1, *i),
+            GeometryVertex::Intersec(i) => (2, *i),
+            GeometryVertex::IntersecCorner(d) => (3, *d as usize),
+        }
+    }
+
+    #[allow(clippy::cast_possible_truncation)]
+    fn geometry_vertex(v: (u8, usize)) -> super::model::GeometryVertex {
+        use super::model::GeometryVertex;
+        match v {
+            (0, i) => GeometryVertex::Regular(i),
+            (1, i) => GeometryVertex::PoI(i),
+            (2, i) => GeometryVertex::Intersec(i),
+            (3, d) => GeometryVertex::IntersecCorner(d as DartIdType),
+            _ => panic!("E: invalid plain geometry vertex"),
+        }
+    }
+
+    /// Verification hook: the segments (`new_segments`) computed by the intersection step, as pairs of plain vertices
+    /// (`(0, i)` regular vertex, `(1, i)` point of interest, `(2, i)` intersection, `(3, d)` corner intersection), in the
+    /// iteration order of the underlying map.
+    pub fn segments<T: CoordsFloat>(
+        cmap: &CMap2<T>,
+        geometry: &Geometry2<T>,
+        n_cells: [usize; 2],
+        cell_sizes: [T; 2],
+        origin: Vertex2<T>,
+    ) -> Vec<((u8, usize), (u8, usize))> {
+        super::routines::generate_intersection_data(cmap, geometry, n_cells, cell_sizes, origin)
+            .0
+            .iter()
+            .map(|(k, v)| (plain_vertex(k), plain_vertex(v)))
+            .collect()
+    }
+
+    /// Verification hook: the `generate_edge_data` step. Segments are given as pairs of plain vertices (see
+    /// [`segments`]); each edge is returned as `(start dart, intermediate points, end dart)`, in the order the routine
+    /// produces them.
+    pub fn edge_data<T: CoordsFloat>(
+        cmap: &CMap2<T>,
+        geometry: &Geometry2<T>,
+        new_segments: &[((u8, usize), (u8, usize))],
+        intersection_darts: &[DartIdType],
+    ) -> Vec<(DartIdType, Vec<Vertex2<T>>, DartIdType)> {
+        let new_segments: super::routines::Segments = new_segments
+            .iter()
+            .map(|(k, v)| (geometry_vertex(*k), geometry_vertex(*v)))
+            .collect();
+        super::routines::generate_edge_data(cmap, geometry, &new_segments, intersection_darts)
+            .into_iter()
+            .map(|e| (e.start, e.intermediates, e.end))
+            .collect()
+    }
+
+    /// Verification hook: the `insert_edges_in_map` step, edges given as `(start dart, intermediate points, end dart)`.
+    pub fn insert_edges<T: CoordsFloat>(
+        cmap: &mut CMap2<T>,
+        edges: &[(DartIdType, Vec<Vertex2<T>>, DartIdType)],
+    ) {
+        let edges: Vec<super::model::MapEdge<T>> = edges
+            .iter()
+            .map(|(start, intermediates, end)| super::model::MapEdge {
+                start: *start,
+                intermediates: intermediates.clone(),
+                end: *end,
+            })
+            .collect();
+        super::routines::insert_edges_in_map(cmap, &edges);
+    }
 }
 
 /// Post-processing clip operation.
